@@ -4,7 +4,13 @@ The generator knows, per target, what the manufacturer's documentation and doc/p
 the size of the address unit per segment (`g`), the byte order of values wider than a byte (`be`), the data and
 reservation directives with the size of one element, and the even-address padding rule (68000, MSP430).  These feed
 the SPEC side of the driver (mode `c19w`).  The MODEL side takes Granularity / ListGran / TurnWords of the same CPU
-from the generated table `Generated/ListParams.lean` (regenerated from the current build on every run)."""
+from the generated table `Generated/ListParams.lean` (regenerated from the current build on every run).
+
+Statements as large as the writer's and lister's buffers (`ProgW.big`, `c19.render_big`): ONE statement of 130..1300 bytes
+(MaxCodeLen_Ini = 256: the per-line buffer grows; CodeBufferSize = 512: `WriteBytes` flushes / writes through), mixed with
+short ones so that all three ways of `WriteBytes` occur at many buffer fills; `nprog // 3` additional programs consist mostly
+of them.  The SPEC side is unchanged (listed bytes incl. all continuation lines = bytes of the code file at the listed
+address); the MODEL side runs `Model/Listing.writeBytesLine` over the emission history and lists what it leaves behind."""
 import os
 
 from .. import common
@@ -17,37 +23,54 @@ WTARGETS = [
     dict(cpu="68000", be=1, share_asm="asmMoto", pad="68k",
          segs={"code": (1, 0xffff)}, gran={"code": 1}, org0=[0, 0x100, 0x1000, 0x1001, 0xfff0 - 0x4000],
          emit={"code": [("dc.b", 1, 255), ("dc.b", 1, 255), ("dc.w", 2, 65535), ("dc.w", 2, 65535), ("dc.l", 4, 0xffffffff)]},
-         res={"code": [("ds.b", 1), ("ds.w", 2), ("ds.l", 4)]}, macro=("dc.w", 2)),
+         res={"code": [("ds.b", 1), ("ds.w", 2), ("ds.l", 4)]}, macro=("dc.w", 2),
+         big=[("dc.b", 1, 255, "moto", True), ("dc.w", 2, 65535, "moto", True), ("dc.w", 2, 65535, "moto", True), ("dc.l", 4, 0xffffffff, "moto", True),
+              ("dc.w", 2, 65535, "list", True), ("dc.l", 4, 0xffffffff, "list", True), ("dc.b", 1, 255, "str", True)]),
     # tipseudo.c define_untyped_label: a label in front of a TI data/reservation directive belongs to no address space
     dict(cpu="320C25", be=0, share_asm="asmIntel", pad=None, untyped_labels=True,
          segs={"code": (1, 0xffff), "data": (2, 0xffff)}, gran={"code": 2, "data": 2}, org0=[0, 0x100, 0x1000, 0xfff0 - 0x4000],
          init={"data": [0x60, 0x200]},
          emit={"code": [("word", 2, 65535)], "data": [("word", 2, 65535)]},
-         res={"code": [("bss", 2)], "data": [("bss", 2)]}, macro=("word", 2)),
+         res={"code": [("bss", 2)], "data": [("bss", 2)]}, macro=("word", 2), big=[("word", 2, 65535, "list", False)]),
     dict(cpu="320C30", be=0, share_asm="asmIntel", pad=None,
          segs={"code": (1, 0xffffff)}, gran={"code": 4}, org0=[0, 0x100, 0x1000, 0x809800],
-         emit={"code": [("word", 4, 0xffffffff)]}, res={"code": [("bss", 4)]}, macro=("word", 4)),
+         emit={"code": [("word", 4, 0xffffffff)]}, res={"code": [("bss", 4)]}, macro=("word", 4), big=[("word", 4, 0xffffffff, "list", False)]),
     dict(cpu="16C84", be=0, share_asm="asmMoto", pad=None,
          segs={"code": (1, 0x3ff), "data": (2, 0x1ff)}, gran={"code": 2, "data": 1}, org0=[0, 0x20, 0x100],
          init={"data": [0x0c, 0x20]},
          emit={"code": [("data", 2, 0x3fff)], "data": []},
-         res={"code": [("res", 2)], "data": [("res", 1)]}, macro=("data", 2)),
+         res={"code": [("res", 2)], "data": [("res", 1)]}, macro=("data", 2),
+         big=[("data", 2, 0x3fff, "list", False), ("zero", 2, 0, "zero", True)]),
     dict(cpu="ATMEGA8", be=0, share_asm="asmC", pad=None,
          segs={"code": (1, 0xfff), "data": (2, 0x45f), "eedata": (10, 0x1ff)}, gran={"code": 2, "data": 1, "eedata": 1},
          org0=[0, 0x30, 0x400], init={"data": [0x60, 0x100], "eedata": [0, 0x10]},
          emit={"code": [("data", 2, 65535)], "data": [], "eedata": [("data", 1, 255)]},
-         res={"code": [("res", 2)], "data": [("res", 1)], "eedata": [("res", 1)]}, macro=("data", 2)),
+         res={"code": [("res", 2)], "data": [("res", 1)], "eedata": [("res", 1)]}, macro=("data", 2), big=[("data", 2, 65535, "list", False)]),
     dict(cpu="MSP430", be=0, share_asm="asmIntel", pad="msp",
          segs={"code": (1, 0xffff)}, gran={"code": 1}, org0=[0x200, 0x1000, 0x1001, 0xfff0 - 0x4000],
          emit={"code": [("byte", 1, 255), ("word", 2, 65535), ("word", 2, 65535)]},
-         res={"code": [("bss", 1)]}, macro=("word", 2)),
+         res={"code": [("bss", 1)]}, macro=("word", 2),
+         big=[("byte", 1, 255, "str", True), ("byte", 1, 255, "list", True), ("word", 2, 65535, "list", False)]),
+    # TMS9900: big endian, byte addressed, listed in 16-bit words; BYTE / WORD / BSS and the padding rule as on the MSP430
+    dict(cpu="TMS9900", be=1, share_asm="asmIntel", pad="msp",
+         segs={"code": (1, 0xffff)}, gran={"code": 1}, org0=[0x200, 0x1000, 0x1001, 0xfff0 - 0x4000],
+         emit={"code": [("byte", 1, 255), ("word", 2, 65535), ("word", 2, 65535)]},
+         res={"code": [("bss", 1)]}, macro=("word", 2),
+         big=[("byte", 1, 255, "str", True), ("byte", 1, 255, "str", True), ("byte", 1, 255, "list", True), ("word", 2, 65535, "list", False)]),
     dict(cpu="CP-1600", be=1, share_asm="asmMoto", pad=None,
          segs={"code": (1, 0xffff)}, gran={"code": 2}, org0=[0, 0x50, 0x1000, 0xfff0 - 0x4000],
-         emit={"code": [("word", 2, 65535)]}, res={"code": [("res", 2)]}, macro=("word", 2)),
+         emit={"code": [("word", 2, 65535)]}, res={"code": [("res", 2)]}, macro=("word", 2), big=[("word", 2, 65535, "list", False)]),
     dict(cpu="80960", be=0, share_asm="asmIntel", pad=None,
          segs={"code": (1, 0xffffff)}, gran={"code": 1}, org0=[0, 0x3000, 0x10000],
-         emit={"code": [("word", 4, 0xffffffff)]}, res={"code": [("space", 1)]}, res_mult=4, macro=("word", 4)),
+         emit={"code": [("word", 4, 0xffffffff)]}, res={"code": [("space", 1)]}, res_mult=4, macro=("word", 4), big=[("word", 4, 0xffffffff, "list", False)]),
 ]
+# `big`: directives for ONE statement of hundreds of bytes: (directive, bytes per element, largest value, operand style of
+# c19.render_big, grows).  grows = False: the directive stores its operands without enlarging the per-line code buffer first
+# (known finding 'data-directive-overruns-code-buffer'); such a statement is generated no larger than the buffer is known
+# to be (asmdef.h MaxCodeLen_Ini = 256 bytes, or the largest earlier statement of a growing directive), except in the
+# programs that are generated to show the finding (`overrun`).
+MAXCODELEN_INI = 256
+OVERRUN_SIG = "data-directive-overruns-code-buffer"
 CNT_POOL = [1, 1, 2, 3, 3, 4, 5, 6, 7, 7, 9, 12, 13]
 
 
@@ -58,7 +81,10 @@ class ProgW(c19.Prog):
         super().__init__(rng, base, size)
         self.tgt = tgt
         self.padding = True
-        self.stats.update(pad=0, padtoggle=0, bytes_remainder=0, multiline=0)
+        self.stats.update(pad=0, padtoggle=0, bytes_remainder=0, multiline=0, big_capped=0, overrun=0)
+        self.bigw = 3
+        self.maxcode = MAXCODELEN_INI
+        self.overrun = False
 
     # -- plumbing
     def g(self):
@@ -122,6 +148,54 @@ class ProgW(c19.Prog):
             self.stats["longdata"] += 1
         if u == 1 and n % lg_guess:
             self.stats["bytes_remainder"] += 1
+
+    def big(self, kind="c"):
+        """one statement of 130..1300 bytes: as large as / larger than MaxCodeLen_Ini (256) and CodeBufferSize (512)"""
+        r = self.rng
+        if self.segname != "code":
+            return self.data(kind)
+        d, u, mx, style, grows = r.choice(self.tgt["big"])
+        nb = c19.big_size(r)
+        force = self.overrun and self.stats["overrun"] == 0
+        if force:
+            d, u, mx, style, grows = r.choice([b for b in self.tgt["big"] if not b[4]])
+        if not grows:
+            if force:
+                nb = max(nb, self.maxcode + 128)
+            elif nb > self.maxcode:
+                nb = r.choice([self.maxcode, self.maxcode, self.maxcode - u, self.maxcode - 2 * u])
+                self.stats["big_capped"] += 1
+        g = self.g()
+        nb = nb // max(u, g) * max(u, g)
+        if nb < u or self.room() < nb // g + 8:
+            return self.data(kind)
+        text, n = c19.render_big(r, style, u, nb, lambda k: self.values(k, mx))
+        if n % g:
+            return self.data(kind)
+        pad = 1 if self.needs_pad(u) else 0
+        lab = (self.mklabel(pad) + ":") if r.random() < 0.3 else ""
+        ln = self.add("%s\t%s %s" % (lab, d, text))
+        self.emit(kind, u, n // u, ln)
+        if grows:
+            self.maxcode = max(self.maxcode, n)
+        elif n > self.maxcode:
+            self.stats["overrun"] += 1
+        self.stats["big"] += 1
+        self.stats["longdata"] += 1
+        if n >= 512:
+            self.stats["big_ge512"] += 1
+
+    def listoff(self):
+        if len(self.stack) > 1 or self.room() < 64:
+            return
+        self.add("\tlisting off")
+        for _ in range(self.rng.randrange(1, 3)):
+            if self.rng.random() < 0.15:
+                self.big(kind="h")
+            else:
+                self.data(kind="h")
+        self.add("\tlisting on")
+        self.stats["listoff"] += 1
 
     def reserve(self):
         d, u = self.rng.choice(self.tgt["res"][self.segname])
@@ -219,8 +293,10 @@ class ProgW(c19.Prog):
         self.macrodef()
         if r.random() < 0.5:
             self.macrodef()
+        if self.overrun:
+            self.big()
         kinds = [(self.data, 34), (self.reserve, 6), (self.org, 5), (self.segsw, 6), (self.phaseblk, 6), (self.macrocall, 8),
-                 (self.rept, 5), (self.include, 5), (self.ifblk, 5), (self.listoff, 4), (self.equ, 6), (self.shared, 4), (self.padtoggle, 4)]
+                 (self.rept, 5), (self.include, 5), (self.ifblk, 5), (self.listoff, 4), (self.equ, 6), (self.shared, 4), (self.padtoggle, 4), (self.big, self.bigw)]
         tot = sum(w for _, w in kinds)
         nst = r.randrange(6, self.size)
         fwd_done = False
@@ -260,10 +336,30 @@ def run_wide(bdir, wd, rng, nprog, numradix_mode, driver_ok):
     """returns dict(spec_fail, corr_fail, agg, dist, samples, distinct)"""
     reqs, metas = [], []
     dist = {}
-    for idx in range(nprog):
+    nbig = max(8, nprog // 3)
+    by_cpu = {t["cpu"]: t for t in WTARGETS}
+    # programs that consist mostly of statements around the buffer sizes: every second one on the 68000 (all of its data
+    # directives enlarge the buffer, values wider than a byte are stored most significant byte first), the others in turn
+    big_cycle = ["68000", "TMS9900", "68000", "MSP430", "68000", "16C84", "68000", "CP-1600", "68000", "TMS9900", "68000", "320C25",
+                 "68000", "80960", "68000", "ATMEGA8", "68000", "TMS9900", "68000", "320C30", "68000", "MSP430", "68000", "TMS9900"]
+    overrun_cycle = ["MSP430", "CP-1600", "TMS9900", "320C25", "16C84", "80960", "ATMEGA8", "320C30"]
+    for idx in range(nprog + nbig):
         base = "w%d" % idx
-        tgt = WTARGETS[idx % len(WTARGETS)]
-        p = ProgW(rng, base, 26 if idx % 4 else 50, tgt).build()
+        if idx < nprog:
+            tgt = WTARGETS[idx % len(WTARGETS)]
+            p = ProgW(rng, base, 26 if idx % 4 else 50, tgt)
+        else:
+            bi = idx - nprog
+            tgt = by_cpu[big_cycle[bi % len(big_cycle)]]
+            p = ProgW(rng, base, 16, tgt)
+            p.bigw = 60
+            if bi % 8 == 7:
+                # one statement larger than the line buffer with a directive that does not enlarge it (known finding)
+                tgt = by_cpu[overrun_cycle[(bi // 8) % len(overrun_cycle)]]
+                p = ProgW(rng, base, 12, tgt)
+                p.bigw = 60
+                p.overrun = True
+        p = p.build()
         radix = 16 if rng.random() < 0.6 else rng.choice(c19.RADIX_POOL)
         shm = rng.choice(["p", "c", "a"])
         fmt = {"p": "pascal", "c": "c", "a": tgt["share_asm"]}[shm]
@@ -274,7 +370,8 @@ def run_wide(bdir, wd, rng, nprog, numradix_mode, driver_ok):
                 "-shareout", os.path.join(wd, base + ".shr"), asm, "-o", os.path.join(wd, base + ".p")]
         rc, so, se = common.run_tool(bdir, "asl", args, wd, timeout=60)
         src_all = {n: "\n".join(ls) + "\n" for n, ls in p.files.items()}
-        meta = dict(tag="wide:%d" % idx, cpu=tgt["cpu"], radix=radix, share=fmt, files=src_all, args=[a.replace(wd + "/", "") for a in args], stats=p.stats)
+        meta = dict(tag="wide:%d" % idx, cpu=tgt["cpu"], radix=radix, share=fmt, files=src_all, args=[a.replace(wd + "/", "") for a in args], stats=p.stats,
+                    overrun=p.stats["overrun"] > 0)
         try:
             pf = open(os.path.join(wd, base + ".p"), "rb").read()
             lst = open(os.path.join(wd, base + ".lst"), encoding="latin-1").read()
@@ -314,6 +411,8 @@ def run_wide(bdir, wd, rng, nprog, numradix_mode, driver_ok):
                units_1byte=0, units_2byte=0, units_4byte=0, listed_bytes=0, hidden_bytes=0, map_entries=0, sym_list=0, sym_map=0, sym_share=0)
     combos = {}
     distinct = set()
+    ways = [0, 0, 0]
+    overrun_tags = {meta["tag"] for meta, _ in metas if meta["overrun"]}
     for meta, ri in metas:
         agg["programs"] += 1
         if ri is None:
@@ -349,6 +448,10 @@ def run_wide(bdir, wd, rng, nprog, numradix_mode, driver_ok):
                 spec_fail.append(dict(why="listing line does not state address/bytes of the code file (word-listed target): spec_list=%s complete=%s" % (kv["spec_list"], kv["complete"]), **common_f))
         elif kv["corr_list"] != "ok":
             corr_fail.append(dict(why="MakeList model (general Gran/ListGran) text differs from the real listing: " + kv["corr_list"], model_line=kv.get("model_line"), **common_f))
+        elif kv["corr_store"] != "ok":
+            corr_fail.append(dict(why="WriteBytes model: the record does not receive the statement's bytes of the code file: " + kv["corr_store"], **common_f))
+        for j, w in enumerate(kv["ways"].split(",")):
+            ways[j] += int(w)
         if kv["spec_map"] != "ok" or kv["map_all"] != "ok" or kv["map_bad_lines"] != "0":
             spec_fail.append(dict(why="MAP line info (word-addressed target): spec_map=%s map_all=%s bad_lines=%s" % (kv["spec_map"], kv["map_all"], kv["map_bad_lines"]), **common_f))
         elif kv["corr_map"] != "ok":
@@ -359,6 +462,15 @@ def run_wide(bdir, wd, rng, nprog, numradix_mode, driver_ok):
         if kv["sym_map_nothing"] != "ok":
             spec_fail.append(dict(sig="map-symbols-without-segment-omitted", why="MAP file has no 'Symbols in Segment NOTHING' section: " + kv["sym_map_nothing"], **common_f))
     dist["model_parameter_combinations"] = combos
+    dist["writebytes_ways(append,flush+buffer,write-through)"] = ways
+    # a program with a statement that overruns the line buffer: whatever goes wrong in it is that finding
+    for f in spec_fail:
+        if f.get("tag") in overrun_tags:
+            f["sig"] = OVERRUN_SIG
+            f["why"] = "one statement of more than MaxCodeLen bytes with a data directive that does not call SetMaxCodeLen (heap overrun of BAsmCode): " + f["why"]
+    for f in [f for f in corr_fail if f.get("tag") in overrun_tags]:
+        corr_fail.remove(f)
+        spec_fail.append(dict(f, sig=OVERRUN_SIG, why="(after a heap overrun of BAsmCode) " + f["why"]))
     return dict(spec_fail=spec_fail, corr_fail=corr_fail, agg=agg, dist=dist, samples=samples, distinct=distinct)
 
 
